@@ -19,6 +19,9 @@ type Store struct {
 	blocks map[cid.Cid][]byte
 	Writes []cid.Cid // every committed write, in order
 	Reads  []cid.Cid // every successful read, in order
+	// OnWriteOpen, when set, is called each time the library asks for a writer (before any byte is written): a place to let
+	// something else happen between a block being fetched and its being stored.
+	OnWriteOpen func()
 }
 
 func NewStore() *Store { return &Store{blocks: map[cid.Cid][]byte{}} }
@@ -93,6 +96,9 @@ func (s *Store) LinkSystem() ipld.LinkSystem {
 		return bytes.NewReader(b), nil
 	}
 	ls.StorageWriteOpener = func(ipld.LinkContext) (io.Writer, ipld.BlockWriteCommitter, error) {
+		if f := s.OnWriteOpen; f != nil {
+			f()
+		}
 		buf := bytes.NewBuffer(nil)
 		return buf, func(lnk ipld.Link) error {
 			c := lnk.(cidlink.Link).Cid
